@@ -25,6 +25,11 @@ void bidib_send_boost_on(t_bidib_node_address a, uint8_t unicast, unsigned int a
 void bidib_send_boost_off(t_bidib_node_address a, uint8_t unicast, unsigned int action_id) { g_off++; g_last = a; if (unicast != 1) g_bad++; }
 unsigned int bidib_get_and_incr_action_id(void) { unsigned a; return a; }
 t_bidib_board *bidib_state_get_board_ref(const char *board) { return g_known ? &boards[0] : NULL; }   /* proved in C15.lookup_by_id */
+_Bool g_map_known, g_state_known; t_bidib_reverser_mapping g_rmap; t_bidib_reverser_state g_rstate; static GString g_cv; static char g_cvs[6];
+unsigned g_vendor_gets; uint8_t g_vg_len; const uint8_t *g_vg_ptr;
+t_bidib_reverser_mapping *bidib_state_get_reverser_mapping_ref(const char *reverser) { return g_map_known ? &g_rmap : NULL; }
+t_bidib_reverser_state *bidib_state_get_reverser_state_ref(const char *reverser) { return g_state_known ? &g_rstate : NULL; }
+void bidib_send_vendor_get(t_bidib_node_address a, uint8_t name_length, const uint8_t *const name, unsigned int action_id) { g_vendor_gets++; g_last = a; g_vg_len = name_length; g_vg_ptr = name; }
 void vp_harness(void) {
 	guint nb; __CPROVER_assume(nb <= NB); v_b.data = (gchar *)boards; v_b.len = nb; v_b.elt_size = sizeof boards[0]; bidib_boards = (GArray *)&v_b;
 	for (int b = 0; b < NB; b++) { c_id[b][0] = (char)(0x61 + b); c_id[b][1] = 0; s_id[b].str = c_id[b]; s_id[b].len = 1; boards[b].id = &s_id[b]; boards[b].connected = boards[b].connected ? 1 : 0; }
@@ -44,6 +49,16 @@ void vp_harness(void) {
 	VP_COVER(ok); VP_COVER(!ok && g_known);
 	__CPROVER_assert(r == (ok ? 0 : 1) && g_cs == (ok ? 1u : 0u) && g_on == 0 && g_off == 0 && g_bad == 0, "C09.track_output_cmd.one_message_iff_known_connected_track_output");
 	if (ok) __CPROVER_assert(addr_eq(g_last, boards[0].node_addr), "C09.track_output_cmd.to_the_boards_current_address");
+#elif defined(VP_H_REVERSER)
+	VP_IN(_Bool, g_map_known); VP_IN(_Bool, g_state_known); g_vendor_gets = 0;
+	guint cvlen; __CPROVER_assume(cvlen <= 5); g_cv.str = g_cvs; g_cv.len = cvlen; g_cvs[cvlen] = 0; g_rmap.cv = &g_cv; g_rmap.id = &s_id[1];
+	t_bidib_reverser_execution_state before = g_rstate.data.state_value;
+	_Bool null_id, null_b; int r = bidib_request_reverser_state(null_id ? NULL : "r", null_b ? NULL : "a");
+	_Bool ok = !null_id && !null_b && g_known && boards[0].connected && g_map_known && g_state_known;
+	VP_COVER(ok); VP_COVER(!ok && g_known && boards[0].connected);
+	__CPROVER_assert(r == (ok ? 0 : 1) && g_vendor_gets == (ok ? 1u : 0u) && g_cs + g_on + g_off == 0, "C09.reverser_request.one_vendor_get_iff_board_connected_and_reverser_configured");
+	if (ok) __CPROVER_assert(addr_eq(g_last, boards[0].node_addr) && g_vg_ptr == (const uint8_t *)g_cvs && g_vg_len == cvlen && g_rstate.data.state_value == BIDIB_REV_EXEC_STATE_UNKNOWN, "C09.reverser_request.asks_the_board_for_the_configured_cv_and_marks_the_state_unknown_until_answered");
+	else __CPROVER_assert(g_rstate.data.state_value == before, "C09.reverser_request.state_unchanged_on_error");
 #else
 	_Bool null_id, on; int r = bidib_set_booster_power_state(null_id ? NULL : "a", on);
 	_Bool ok = !null_id && g_known && boards[0].connected && (boards[0].unique_id.class_id & (1 << 1));
